@@ -288,7 +288,11 @@ def _compile(node):
 
         def body(*params, **kws):
             # the trailing parameters named in "kwnames" are keyword parameters with defaults (C32)
-            params = list(params) + [kws.get(nm, df) for nm, df in zip(kwnames, kwdefaults)][len(params) - (node["n"] - len(kwnames)) :]
+            npos = node["n"] - len(kwnames)
+            if len(params) not in (npos, node["n"]) or (len(params) == node["n"] and kws) or any(k_ not in kwnames for k_ in kws):
+                # behave like an ordinary Python function of fixed arity
+                raise TypeError(f"{body.__name__}() takes {npos} positional arguments (+ keywords {kwnames}) but {len(params)} were given (keywords {sorted(kws)})")
+            params = list(params) + [kws.get(nm, df) for nm, df in zip(kwnames, kwdefaults)][len(params) - npos :]
             env = [jnp.asarray(p, dtype=jnp.float32) for p in params]
             raws = []
             for s, cal, rt in zip(stmts, callees, rts):
